@@ -449,6 +449,20 @@ func dischargeWith(as []*Term, script string, tmo time.Duration, solvers []strin
 		noQ = append(noQ, a)
 	}
 	tasks := []solverTask{{solver: solvers[0], script: script}}
+	// the path's own facts only (no engine-made instances / definitional equations, no quantifiers): most safety
+	// and frame obligations need nothing else, and the full hypothesis set can be megabytes
+	var core []*Term
+	naux := 0
+	for i, a := range noQ {
+		if _, aux := auxTerms.Load(a); aux && i != len(noQ)-1 {
+			naux++
+			continue
+		}
+		core = append(core, a)
+	}
+	if naux > 8 && len(solvers) > 1 {
+		tasks = append(tasks, solverTask{solver: solvers[1], script: ScriptNoQ(core), tag: "+core-hypotheses", onlyUnsat: true})
+	}
 	if len(solvers) > 1 {
 		if hasQ {
 			tasks = append(tasks, solverTask{solver: solvers[1], script: ScriptNoQ(noQ), tag: "+no-quantifiers", onlyUnsat: true})
